@@ -162,13 +162,15 @@ package compile
 // -- constants: encoder and decoder agree, iteration by iteration, on the kind tag and payload
 //    kind: 0 string, 1 bytes, 2 int64, 3 float64 (IEEE bits), 4 big int (decimal text)
 //@ func Program.Encode
-//@   prop C17
+//@   prop C17 C09
+//@   assert /binary.LittleEndian.PutUint32/ [C17,C09] recursion_flag_is_last_token: tp(e, e.np - 1) == ite(prog.Recursion, 1, 0)
 //@   bodyensures 2 string_const: typeis(prog.Constants[rangeindex + 1], string) ==> tp(e, old(e.np)) == 0 && tp(e, old(e.np) + 1) == len(as(prog.Constants[rangeindex + 1], string)) && ts(e, old(e.ns)) == strid(as(prog.Constants[rangeindex + 1], string)) && e.np == old(e.np) + 2 && e.ns == old(e.ns) + 1
 //@   bodyensures 2 bytes_const: typeis(prog.Constants[rangeindex + 1], Bytes) ==> tp(e, old(e.np)) == 1 && tp(e, old(e.np) + 1) == len(as(prog.Constants[rangeindex + 1], Bytes)) && ts(e, old(e.ns)) == strid(as(prog.Constants[rangeindex + 1], Bytes)) && e.np == old(e.np) + 2 && e.ns == old(e.ns) + 1
 //@   bodyensures 2 int_const: typeis(prog.Constants[rangeindex + 1], int64) ==> tp(e, old(e.np)) == 2 && tp(e, old(e.np) + 1) == as(prog.Constants[rangeindex + 1], int64) && e.np == old(e.np) + 2 && e.ns == old(e.ns)
 //@   bodyensures 2 float_const: typeis(prog.Constants[rangeindex + 1], float64) ==> tp(e, old(e.np)) == 3 && tp(e, old(e.np) + 1) == fbits(as(prog.Constants[rangeindex + 1], float64)) && e.np == old(e.np) + 2 && e.ns == old(e.ns)
 //@ func DecodeProgram
-//@   prop C17
+//@   prop C17 C09
+//@   assert /prog := &Program\{/ [C17,C09] recursion_flag_is_last_token: recursion <==> tp(d, d.ip - 1) != 0
 //@   bodyensures 2 string_const: tp(d, old(d.ip)) == 0 ==> typeis(constants[rangeindex + 1], string) && strid(as(constants[rangeindex + 1], string)) == ts(d, old(d.is)) && d.ip == old(d.ip) + 2 && d.is == old(d.is) + 1
 //@   bodyensures 2 bytes_const: tp(d, old(d.ip)) == 1 ==> typeis(constants[rangeindex + 1], Bytes) && strid(as(constants[rangeindex + 1], Bytes)) == ts(d, old(d.is)) && d.ip == old(d.ip) + 2 && d.is == old(d.is) + 1
 //@   bodyensures 2 int_const: tp(d, old(d.ip)) == 2 ==> typeis(constants[rangeindex + 1], int64) && as(constants[rangeindex + 1], int64) == tp(d, old(d.ip) + 1) && d.ip == old(d.ip) + 2 && d.is == old(d.is)
